@@ -47,7 +47,7 @@ for th in (False, True):
     cfg('LatticeMC_C06e' + sx, G, T, Q4, Q3, BOTH, TT, '{0}', CUTS, 1, 3 * ke, '{"m11", "m10"}', 'TRUE', ['EmitBehaviour'])
     cfg('LatticeMC_C07e' + sx, '{"line", "selfl", "tri"}' if not th else G, T, Q4, Q3, BOTH, BOTH, '{1, 2}', '{"none", "prob"}', 3, 1 * ke, '{"m11"}', 'TRUE', ['EmitBehaviour'])
     cfg('LatticeMC_C08e' + sx, '{"line", "selfl", "tri"}' if not th else G, T, Q4, Q3, BOTH, BOTH, '{0, 2}', '{"none", "dist"}', 3, 1 * ke, '{"m11"}', 'TRUE', ['EmitBehaviour'])
-    cfg('LatticeMC_C19' + sx, G, T, Q4, Q3, BOTH, FF, '{0, 1, 2}', CUTS, 1, 6 * k, '{"m11", "m00"}', 'FALSE', ['C19scoped'])
+    cfg('LatticeMC_C19' + sx, G, T, Q4, Q3, BOTH, BOTH, '{0, 1, 2}', CUTS, 1, 2 * k, '{"m11", "m00"}', 'FALSE', ['C19all'])
     cfg('LatticeMC_C19n' + sx, G, T, Q4, Q3, BOTH, TT, '{0, 1, 2}', CUTS, 1, 8 * k, '{"m11", "m00"}', 'FALSE', ['C19noties'])
     cfg('LatticeMC_C19x' + sx, '{"selfl", "line", "tri"}', T, Q4, Q3, FF, TT, '{0}', '{"none", "dist", "prob"}', 1, 40 * k, '{"m11"}', 'FALSE', ['C19all'])
     cfg('LatticeMC_C19e' + sx, '{"line", "selfl", "dead"}' if not th else G, T, Q4, Q3, BOTH, BOTH, '{0, 2}', CUTS, 2, 1 * ke, '{"m11"}', 'TRUE', ['EmitBehaviour'], debugs='{TRUE}')
